@@ -831,6 +831,11 @@ class MemorizedFunc(Logger):
         """
         call_id = (self.func_id, self._get_args_id(*args, **kwargs))
 
+        # The results are only valid for the code they were computed with:
+        # make sure that this code is recorded in the store (and that the
+        # results of a previous version of the function are discarded).
+        self._check_previous_func_code(stacklevel=3)
+
         # Return the output and the metadata
         return self._call(call_id, args, kwargs)
 
